@@ -6,7 +6,8 @@
      fmts    [s:I,s:bits,c:Cls,l:Cls]             types  [bool,int,tv:varlenH,co:int,cot:int,cos:int,cs:Cls,cot:se:Cls,se:Cls,lit:Cls,other]
      init    - | kw | nokw | kwo:<k> | kwok:<k> (last k names keyword-only) | super:<n>             (no user __init__ | with **kwargs | without | old-style
                                                     superclass whose __init__ takes the first n names)
-     defaults [b=d1>d1,c=d2>!]                     name=value>value-denoted-by-the-spliced-text ("!" = does not compile)
+     defaults [b=d1>d1]                            name=value>value-the-generated-default-denotes (the harness always sends
+                                                    the identity since defaults are bound as objects; "!" = does not compile)
      fixpack / fixunpack  [a,c]                    fields with a hook
      args    [v0,N,v2]      kw  [k=v3]             values are opaque atoms; N is None
    Values in the driver are terms of the free algebra over atoms and hook applications, so agreement here is
